@@ -291,9 +291,20 @@ class _Gen:
     def op_leave(self, task: _GTask) -> dict | None:
         if not task.stack:
             return None
-        idx = task.stack.pop()
+        idx = task.stack[-1]
+        op: dict[str, Any] = {"op": "leave", "ctx": idx}
+        if self.d.pct(35):
+            # publications and lookups made from a teardown callback of the context being left
+            td = []
+            for _ in range(self.d.int(1, 3)):
+                if self.d.pct(55):
+                    td.append(self.op_add(task, ctx=idx, valid_only=True))
+                else:
+                    td.append(self.op_get(task, ctx=idx))
+            op["td"] = td
+        task.stack.pop()
         self.m.ctxs[idx].state = "closed"
-        return {"op": "leave", "ctx": idx}
+        return op
 
     def _target(self, task: _GTask) -> int:
         vis = task.visible()
@@ -301,9 +312,10 @@ class _Gen:
             return vis[-1]
         return self.d.pick(vis)
 
-    def op_add(self, task: _GTask) -> dict:
+    def op_add(self, task: _GTask, ctx: int | None = None, valid_only: bool = False, key: tuple | None = None) -> dict:
         d = self.d
-        ctx = self._target(task)
+        if ctx is None:
+            ctx = self._target(task)
         c = self.m.ctxs[ctx]
         collide_p = 40 if self.prop == "C03" else 20
         invalid_p = 22 if self.prop in ("C03", "C18") else 8
@@ -325,7 +337,10 @@ class _Gen:
         else:
             op["name"] = d.pick(VALID_NAMES)
             op["types"] = _dedupe([d.int(0, NTYPES - 1) for _ in range(d.weighted([(0, 30), (1, 35), (2, 25), (3, 10)]))])
-        if d.pct(invalid_p):
+        if key is not None:
+            op["name"] = key[1]
+            op["types"] = _dedupe([key[0]] + [d.int(0, NTYPES - 1) for _ in range(d.int(0, 1))])
+        if not valid_only and key is None and d.pct(invalid_p):
             kind = d.pick(["name", "none", "types", "teardown", "name"])
             if kind == "name":
                 op["name"] = d.pick(INVALID_NAMES)
@@ -434,7 +449,7 @@ class _Gen:
         d = self.d
         nb = d.int(2, 3 if self.tier == "quick" else 4)
         branches = []
-        race_p = 60 if self.prop == "C04" else 25
+        race_p = {"C04": 60, "C18": 45, "C03": 40}.get(self.prop, 25)
         race_key = None
         race_ctx = None
         if d.pct(race_p):
@@ -460,6 +475,9 @@ class _Gen:
                         f = self.m.facs[fid]
                         k = (d.pick(list(f.types)), f.name)
                     o: dict | None = self.op_get(bt, key=k, ctx=race_ctx, api=d.pick(["m_async", "m_async", "m_nowait"]))
+                elif race_key is not None and d.pct(30):
+                    # a static resource arriving under the requested pair while the factory runs
+                    o = self.op_add(bt, ctx=race_ctx, key=race_key)
                 else:
                     o = self.one(bt, allow_par=False)
                 if o is not None:
@@ -731,7 +749,7 @@ class Interp:
         elif kind == "enter":
             await self.do_enter(task, op)
         elif kind == "leave":
-            await self.do_leave(task, op["ctx"])
+            await self.do_leave(task, op["ctx"], op)
         elif kind == "add":
             self.do_add(task, op)
         elif kind == "addf":
@@ -802,6 +820,8 @@ class Interp:
             ev = await it.__anext__()
             if ev is sentinel:
                 break
+            if ev.resource_types and all(t is type(None) for t in ev.resource_types):
+                continue  # Optional[...] return annotations also register NoneType: not modelled
             got.append(ev)
         await cm.__aexit__(None, None, None)
         if self.diverged:
@@ -844,19 +864,36 @@ class Interp:
             self.disc(["event"], f"log-{kind}", f"context #{idx}: {text}; got {[_fmt_ev(e) for e in got]}, "
                       f"expected {[_fmt_exp(e) for e in expected]}")
 
-    async def do_leave(self, task: _Task, idx: int) -> None:
+    async def do_leave(self, task: _Task, idx: int, op: dict | None = None) -> None:
         if not task.stack or task.stack[-1] != idx:
             raise HarnessError(f"leave {idx} violates stack discipline {task.stack}")
-        await self.drain(idx)
         rc = self.real[idx]
-        self.m.ctxs[idx].state = "closed"
-        task.stack.pop()
+        td_ops = op.get("td") if op else None
+        if td_ops and not self.diverged:
+            self.labels.add("ops-during-teardown")
+
+            async def during_teardown() -> None:
+                try:
+                    await self.run_ops(task, td_ops)
+                except BaseException as exc:
+                    self.note_escape(exc)
+                    raise
+
+            rc.add_teardown_callback(during_teardown)
         try:
             await rc.__aexit__(None, None, None)
         except Exception as exc:
             self.disc(["crash"], "leave-raises", f"leaving context #{idx} raised {short_exc(exc)}")
             self.diverged = True
+            self.m.ctxs[idx].state = "closed"
+            task.stack.pop()
+            if idx in self.streams:
+                cm, _ = self.streams.pop(idx)
+                await cm.__aexit__(None, None, None)
             return
+        self.m.ctxs[idx].state = "closed"
+        task.stack.pop()
+        await self.drain(idx)  # (a signal keeps working after its context has been closed)
         self.trace.append(["leave", idx])
         marks = self.td_marks.get(idx, [])
         for s in marks:
@@ -1101,9 +1138,10 @@ class Interp:
                     self.check_views("get", ctx, True, desc + " [factory raised]")
                     return
             produced_here = self.fproduced.get((ctx, fid), [])
-            if c.generated.get(fid) is None and produced_here:
-                # first completion decides the context's object
-                self.m.gen_complete(ctx, fid, produced_here[0])
+            if c.generated.get(fid) is None and produced and exc is None:
+                # the lookup that ran the factory completes the generation (its return is atomic
+                # with the registration; other lookups may return before that)
+                self.m.gen_complete(ctx, fid, produced[0])
                 self.f_gen_in.add((ctx, fid))
             n_p = len(produced_here)
             # (zero productions are fine when the pair was taken by another resource meanwhile)
@@ -1265,7 +1303,7 @@ class Interp:
                 await start_component(Comp, timeout=None)
             else:
                 await body()
-            await self.drain(0)
+        await self.drain(0)
         for sm in self.td_marks.get(0, []):
             if sm in self.failed_td:
                 self.disc(["atomicity"], "failed-add-teardown-ran",
